@@ -1204,6 +1204,18 @@ fn find_close_in_word_fast(
     None
 }
 
+/// The byte-table in-word close search used by `BalancedParens::find_close`, callable
+/// directly by the external verification harness.
+#[cfg(feature = "verif-hooks")]
+pub fn verif_find_close_in_word_fast(
+    word: u64,
+    start_bit: usize,
+    initial_excess: i32,
+    valid_bits: usize,
+) -> Option<usize> {
+    find_close_in_word_fast(word, start_bit, initial_excess, valid_bits)
+}
+
 // ============================================================================
 // Phase 1: Word-Level Operations
 // ============================================================================
